@@ -603,7 +603,8 @@ def q11_distinct_containers(ctx) -> None:
     init = P.need_method(Q, "__init__", own=True)
     ctx.analysed(init)
     fresh = [g for g in walk_local(init.node) if isinstance(g, (ast.GeneratorExp, ast.ListComp)) and isinstance(g.elt, ast.Call) and norm(g.elt.func).split(".")[-1] == "deque"
-             and len(g.generators) == 1 and norm(g.generators[0].iter) == "self.expansion_strats"]
+             and len(g.generators) == 1 and (norm(g.generators[0].iter) == "self.expansion_strats"
+                                             or "len(self.expansion_strats)" in norm(D.expanded(init.node, g.generators[0].iter)))]
     if fresh:
         ctx.ok("Q11", "curr_level holds one fresh deque per expansion set")
     elif n == 0:
